@@ -40,7 +40,7 @@ ALL = {
  'C26': (E1, T_E1, 'Every operation sequence of length <=3/4 over create/close/delete/get/dump on 2 names, and every pair of <=2-operation sequences from two threads, interleaved in all ways (<=2 preemptions) with the asynchronous close timers; no panic, no deadlock, results explained by a linearizable registry model.', 'grace period and retry sleeps modelled as yields, not durations'),
  'C27': (E3, T_E3 + '; plus stateless DFS over interleavings of concurrent table operations under the controlled scheduler', 'BFS to a fixpoint over add/terminate/garbage-collect/lookup histories on the real job table with <=10/12 jobs, every lookup compared with the model of the statement; plus every history of <=7/9 mutating operations with <=4 jobs run without state merging; plus all interleavings (<=2 preemptions) of two scopes running add / garbage-collect / finish-then-collect on the real table: at quiescence jobs lists exactly the running jobs under their original ids.', 'synthetic Process values; concurrent part: two scopes, <=2 operations each'),
  'C28': (E1, T_E1, 'Two session threads run one program each through the whole interpreter; all schedules within the deviation bound; a monitor at every scheduling point checks FID uniqueness, and at quiescence the FID table must be back to its baseline.', 'preemptions only at shared-visible operations; bound 1 quick / 2 thorough'),
- 'C29': (E4, T_E4, 'All histories of <=2x2 / 3x3 commands over a block alphabet (multi-line, unicode, 70 KiB, 200 KiB); the file is truncated at EVERY byte of the last write (sampled offsets for the long entries), further sessions append, reload must give every acknowledged entry except possibly the torn one.', 'crash model = torn single append (prefix); murex never fsyncs so power-loss models are out of scope'),
+ 'C29': (E4, T_E4 + '; plus stateless DFS over interleavings of concurrent History.Write calls under the controlled scheduler (scheduling point before every statement of Write)', 'All histories of <=2x2 / 3x3 commands over a block alphabet (multi-line, unicode, 70 KiB plain, 70 KiB that encodes to 350 KiB, 200 KiB); the file is truncated at EVERY byte of the last write (sampled offsets for the long entries), further sessions append, reload must give every acknowledged entry except possibly the torn one; two live sessions with a crash of the second between two writes of the first; and all interleavings (<=2 preemptions) of 2-3 live sessions recording at once: a later session loads exactly what was recorded.', 'crash model = torn single append (prefix); murex never fsyncs so power-loss models are out of scope'),
  'C30': (E3, T_E3, 'BFS over write/read/trim/clear histories on namespaces x keys x values x TTL classes of the real cache (memory + sqlite); every read compared with the model.', 'real clock: TTLs kept >=30 min from now, expiry during a history is outside the bound'),
  'C31': (E2, T_E2, 'Functions with fixed stdout/stderr/exit x the product of assertion choices in the test plan; verdict of test unit compared with an oracle evaluating each assertion.', '9 assertion dimensions as listed in evidence'),
  'C32': (E1, 'stateless DFS over schedules of the real interpreter built with the Go race detector, scheduler hand-offs invisible to the detector; the detector judges every explored schedule', 'Listed concurrent programs, and every unordered pair of operations of every shared interpreter table (variables, parameters, config, aliases, functions, FIDs, methods, unit tests, named pipes, streams) plus a list of functions that must be stateless, run under the controlled scheduler in a -race build whose scheduler shims are uninstrumented (futex gates), so each explored schedule is judged by the race detector with exactly the program\'s own synchronisation; a canary race must be reported on every run.', 'only accesses executed by the explored programs/pairs/schedules are seen; detector history is finite; writes inside std packages the runtime depends on (internal/strconv) are not instrumented; bound 1 quick / 2 thorough'),
@@ -85,7 +85,7 @@ def main():
             'add_only': True,
         },
         'engines': [
-            {'name': 'E1-vsched', 'path': 'shim/vsched', 'serves_properties': ['C01','C02','C03','C26','C28','C32'], 'kind_free_text': 'controlled cooperative scheduler over the real code (source overlay), stateless DFS with iterative preemption bounding'},
+            {'name': 'E1-vsched', 'path': 'shim/vsched', 'serves_properties': ['C01','C02','C03','C26','C27','C28','C29','C32'], 'kind_free_text': 'controlled cooperative scheduler over the real code (source overlay), stateless DFS with iterative preemption bounding'},
             {'name': 'E2-enum', 'path': 'vlib', 'serves_properties': [i for i in CHECKS if CHECKS[i][0]=='E2-enum'], 'kind_free_text': 'bounded-exhaustive enumeration of inputs/programs run on the real code against a reference model'},
             {'name': 'E3-xstate', 'path': 'vlib', 'serves_properties': [i for i in CHECKS if CHECKS[i][0]=='E3-xstate'], 'kind_free_text': 'explicit-state BFS over operation histories of real objects with canonical-state deduplication'},
             {'name': 'E4-crashpt', 'path': 'vlib', 'serves_properties': [i for i in CHECKS if CHECKS[i][0]=='E4-crashpt'], 'kind_free_text': 'every torn-write prefix of the last write of every enumerated history'},
